@@ -1257,12 +1257,12 @@ func (e *Enc) evalCall(n *SCall, ctx *SpecCtx) (SV, error) {
 		key := e.structName(stT) + "_" + sanitize(sf.Name)
 		if n.Fn == "received" || n.Fn == "sent" {
 			pfx := map[string]string{"received": "chrecv_", "sent": "chsent_"}[n.Fn]
-			c := e.comp(pfx+key, "(Array Ref Int)", "ghost", "G:recv")
+			c := e.comp(pfx+key, "(Array Ref Int)", "ghost", "G:chan")
 			return SV{T: sel(e.get(ctx.cur, c), base.T), Sort: "Int"}, nil
 		}
 		srt := e.sortOf(ch.Elem())
 		pfx := map[string]string{"lastrecv": "chlast_", "lastsent": "chlastsent_"}[n.Fn]
-		c := e.comp(pfx+key, "(Array Ref "+srt+")", "ghost", "G:recv")
+		c := e.comp(pfx+key, "(Array Ref "+srt+")", "ghost", "G:chan")
 		return SV{T: sel(e.get(ctx.cur, c), base.T), Sort: srt, Typ: ch.Elem()}, nil
 	case "lin":
 		// evaluate at the linearisation point (last lock acquisition / wait return)
@@ -1798,7 +1798,7 @@ func (e *Enc) frameGoals(st *St) map[string]string {
 		if c.Kind == "local" || c.Kind == "alloc" {
 			continue
 		}
-		if strings.HasPrefix(c.Fam, "G:calls:") || c.Fam == "G:held" || c.Fam == "G:ctxdone" || c.Fam == "G:recv" {
+		if strings.HasPrefix(c.Fam, "G:calls:") || c.Fam == "G:held" || c.Fam == "G:ctxdone" || c.Fam == "G:recv" || c.Fam == "G:chan" {
 			continue
 		}
 		v0, v1 := e.get(entry, c), e.get(st, c)
